@@ -37,7 +37,9 @@ let () =
        | "C" :: s :: _ -> scenario := s; idx := 0
        | "O" :: words ->
          incr idx;
-         let toks = show_op (op_of words) in
+         let o = op_of words in
+         (* service open is printed with its registry step (see show_op_full in Lifecycle.v) *)
+         let toks = (match o with OSvcOpen -> show_op_full o | _ -> show_op o) in
          Printf.printf "STEPS %s %d %s\n" !scenario !idx
            (String.concat " " (List.map (fun (t, n) -> tok_str t ^ ":" ^ name_str n) toks))
        | _ -> ()
